@@ -190,7 +190,7 @@ fn escape_item(value: &str, target: QuoteTarget, level: QuoteLevel) -> (r: Cow<s
 //@extract simple_type::escape_list | src/se/simple_type.rs :: fn escape_list | serves=C13 features=serialize
 //@rewrite-all _escape(value, ==> _escape(Cow::Borrowed(value),
 /// Escapes XSD simple type value
-fn escape_list(value: &str, target: QuoteTarget, level: QuoteLevel) -> (r: Cow<str>)
+pub fn escape_list(value: &str, target: QuoteTarget, level: QuoteLevel) -> (r: Cow<str>)
     // C13: exactly the bytes the table demands are replaced by references (QuoteLevel / QuoteTarget documentation)
     ensures cow_str_bytes(r) == spec_escape(value.spec_bytes(), p_list(target, level)),
 {
